@@ -183,14 +183,15 @@ def _dynamic(S, mode):
 
 def _multi_block(S):
     from optimism import Mechanics
-    N, vol, dN, X, U, Q, dt = _inputs(2, 4)
-    conns = [[0, 1, 2], [1, 3, 2]]
-    blocks = {'left': jnp.array([0]), 'right': jnp.array([1])}
+    # three elements; the blocks are neither contiguous nor listed in element order
+    N, vol, dN, X, U, Q, dt = _inputs(3, 5)
+    conns = [[0, 1, 2], [1, 3, 2], [3, 4, 2]]
+    blocks = {'right': jnp.array([1]), 'left': jnp.array([0, 2])}
 
     def fns(N_, vol_, dN_, X_, U_, Q_, dt_):
         single = Mechanics.create_mechanics_functions(_fs(N_, vol_, dN_, X_, conns), 'plane strain', Material())
         multi = Mechanics.create_multi_block_mechanics_functions(_fs(N_, vol_, dN_, X_, conns, blocks), 'plane strain',
-                                                                 {'left': Material(), 'right': Material()})
+                                                                 {'right': Material(), 'left': Material()})
         return (single.compute_strain_energy(U_, Q_, dt_), multi.compute_strain_energy(U_, Q_, dt_),
                 single.compute_element_stiffnesses(U_, Q_, dt_), multi.compute_element_stiffnesses(U_, Q_, dt_),
                 single.compute_updated_internal_variables(U_, Q_, dt_), multi.compute_updated_internal_variables(U_, Q_, dt_))
